@@ -35,7 +35,9 @@ SIZES = {'quick': 24, 'thorough': 80, 'search': 40}          # number of PROBLEM
 CAP = {'quick': 90, 'thorough': 260}
 RULE = ('cases: SIZES[tier] generated pragmatic problems (2-5 jobs in the quick tier, up to 7 in thorough; e2e.gen_checked_problem: '
         'singles and multi jobs, windows, capacity, skills, limits, metric and non-metric matrices) x max_generations 1-3 (thorough: '
-        'also 4, 5, 10); per problem the uninterrupted run gives the poll count K (problems with K above the tier cap are '
+        'also 4, 5, 10), in 60% of the problems COMBINED with the other criteria the builder accepts: min-cv "sample" (sizes 1..40, '
+        'below / at / above max_generations; thresholds that never fire, fire once the sample is full, 0.05) or "period", max-time '
+        '(an hour), target proximity (never / at once); per problem the uninterrupted run gives the poll count K (problems with K above the tier cap are '
         'regenerated) and then k = 0, 1, ..., K, K+1 and "never" are ALL run (exhaustive per problem, see coverage.fault_enumeration). '
         'non-trivial = distinct (problem, k) whose quota fired inside the run (k <= K) and whose document still has a tour.')
 TRUSTED = ['the shared end-to-end rendering (tools/props/e2e.py) and harness op "solve"; its CountingQuota (public Quota trait) answers '
@@ -91,9 +93,44 @@ def sites_info(sites):
     return pos[0] - 1, [pos[i + 1] - pos[i] - 1 for i in range(len(pos) - 1)]
 
 
-def _cfg(N, k, seed, sites=True):
-    return {'max_generations': N, 'parallelism': None, 'quota_after_polls': k, 'seed': seed, 'outer_threads': 1, 'trace': 0,
-            'poll_sites': True}
+def _cfg(N, k, seed, extras=None):
+    cfg = {'max_generations': N, 'parallelism': None, 'quota_after_polls': k, 'seed': seed, 'outer_threads': 1, 'trace': 0,
+           'poll_sites': True}
+    cfg.update(extras or {})
+    return cfg
+
+
+EXTRA_KEYS = ('max_time', 'min_cv', 'target_proximity')
+
+
+def gen_extras(rng, N):
+    """the other termination criteria EvolutionConfigBuilder accepts, combined with max_generations = N"""
+    ex = {}
+    if rng.chance(4, 10):
+        return ex
+    if rng.chance(3, 4):
+        if rng.chance(2, 3):
+            ex['min_cv'] = ['sample', rng.choice([1, 2, 3, max(1, N), N + 1, N + 2, 2 * N + 3, 12, 40]),
+                            rng.choice([-1.0, -1.0, 1e9, 0.05]), rng.choice([True, True, False])]
+        else:
+            ex['min_cv'] = ['period', rng.choice([3600, 100000]), rng.choice([-1.0, 1e9]), rng.choice([True, False])]
+    if rng.chance(1, 3):
+        ex['max_time'] = 3600
+    if rng.chance(1, 4):
+        ex['target_proximity'] = [[0.0, 0.0, 0.0], rng.choice([0.0, 0.0, 1e18])]
+    return ex
+
+
+def extras_of(cfg):
+    return {k: cfg[k] for k in EXTRA_KEYS if cfg.get(k) is not None}
+
+
+def cannot_fire(cfg):
+    """the extra criteria of this configuration can never be true: threshold -1 (cv > -1 always), a period of an hour or more,
+    max-time of an hour, proximity threshold 0 (distance < 0 never)"""
+    cv, tp, mt = cfg.get('min_cv'), cfg.get('target_proximity'), cfg.get('max_time')
+    return ((cv is None or cv[2] == -1.0 or (cv[0] == 'period' and cv[1] >= 3600)) and (tp is None or tp[1] == 0.0)
+            and (mt is None or mt >= 3600))
 
 
 def generate(rng, tier, n):
@@ -110,7 +147,7 @@ def generate(rng, tier, n):
             attempts += 1
             p = e2e.gen_checked_problem(rng, njobs=rng.choice(sizes))
             N, seed = rng.choice(gens), rng.below(1000)
-            c = e2e.solve_case(p, _cfg(N, None, seed, sites=True))
+            c = e2e.solve_case(p, _cfg(N, None, seed, gen_extras(rng, N)))
             c['meta'] = p['meta']
             c['id'] = 'L%d' % len(batch)
             batch.append(c)
@@ -120,8 +157,10 @@ def generate(rng, tier, n):
                 break
             r = learned.get(c['id'])
             N, seed = c['config']['max_generations'], c['config']['seed']
+            extras = extras_of(c['config'])
             info = sites_info(r.get('poll_sites') or []) if isinstance(r, dict) and e2e.outcome(r) == 'solution' else None
-            group = '%s/N%d/s%d' % (hashlib.sha256(json.dumps(c['problem'], sort_keys=True).encode()).hexdigest()[:10], N, seed)
+            group = '%s/N%d/s%d%s' % (hashlib.sha256(json.dumps(c['problem'], sort_keys=True).encode()).hexdigest()[:10], N, seed,
+                                      '/' + hashlib.sha256(json.dumps(extras, sort_keys=True).encode()).hexdigest()[:6] if extras else '')
             if info is None:
                 # the uninterrupted run itself misbehaves (panic / error / unlabelled polls): hand the single case to the oracle
                 _COV['learning_failures'] += 1
@@ -132,16 +171,20 @@ def generate(rng, tier, n):
                 continue
             K = r['polls']
             if K > cap:
+                # too long to enumerate, but the uninterrupted run itself is still judged (generation bound, validity)
                 _COV['skipped_over_cap'] += 1
+                d = {k: v for k, v in c.items() if k != 'id'}
+                d['c07'] = {'group': group, 'over_cap': True}
+                out.append(d)
                 continue
             learn = {'group': group, 'K': K, 'init_polls': info[0], 'gen_polls': info[1], 'doc': _doc_hash(r['solution'])}
             ks = list(range(0, K + 2)) + [None]
             for k in ks:
-                d = e2e.solve_case({'problem': c['problem'], 'matrices': c['matrices']}, _cfg(N, k, seed))
+                d = e2e.solve_case({'problem': c['problem'], 'matrices': c['matrices']}, _cfg(N, k, seed, extras))
                 d['meta'] = c.get('meta')
                 d['c07'] = learn
                 out.append(d)
-            _COV['groups'][group] = {'max_generations': N, 'K': K, 'ks': len(ks)}
+            _COV['groups'][group] = {'max_generations': N, 'K': K, 'ks': len(ks), 'extras': extras}
             _COV['planned_pairs'] += len(ks)
             done += 1
     _COV['problems'] += done
@@ -184,8 +227,12 @@ def model_term(c, impl):
         ev = '(9%nat, 0%nat, 0%nat, 0%nat, 0%nat)'
     else:
         k = c['config'].get('quota_after_polls')
-        ev = '(run_evolve %s %s [%s] %s)' % (_nat(c['config']['max_generations']), _nat(l[0]), '; '.join(_nat(x) for x in l[1]),
-                                            'None' if k is None else '(Some %s)' % _nat(k))
+        cv = c['config'].get('min_cv')
+        ev = '(run_evolve_cfg %s %s %s %s %s [%s] %s)' % (
+            _nat(c['config']['max_generations']), 'true' if c['config'].get('max_time') is not None else 'false',
+            'None' if cv is None else '(Some (%s, %s))' % ('true' if cv[0] == 'sample' else 'false', _nat(cv[1])),
+            'true' if c['config'].get('target_proximity') is not None else 'false',
+            _nat(l[0]), '; '.join(_nat(x) for x in l[1]), 'None' if k is None else '(Some %s)' % _nat(k))
     return '(%s, %s)' % (valid, ev)
 
 
@@ -206,6 +253,12 @@ def compare(c, impl, model):
     if code not in (0, 1):
         return 'model evaluation ended with code %d' % code
     if out != 'solution':
+        return None
+    if not cannot_fire(c['config']):
+        # another configured criterion (min-cv, target proximity) may stop the run earlier: the model (in which it never
+        # fires) is an upper bound
+        if isinstance(impl.get('evolution'), int) and impl['evolution'] > evo:
+            return 'generations run: implementation %d, model upper bound %d (k = %s, %s)' % (impl['evolution'], evo, k, json.dumps(extras_of(c['config'])))
         return None
     if impl.get('polls') != polls:
         return ('polls: the model stops at poll %d (the first Iterative::run poll that sees termination or the quota), the '
@@ -258,7 +311,8 @@ def oracle(c, impl):
     _note_seen(c)
     N = c['config']['max_generations']
     k = c['config'].get('quota_after_polls')
-    where = 'max_generations %d, quota %s' % (N, 'never fires' if k is None else 'true from poll %d on' % k)
+    where = 'max_generations %d%s, quota %s' % (N, ''.join(', %s %s' % (a, json.dumps(b)) for a, b in sorted(extras_of(c['config']).items())),
+                                                'never fires' if k is None else 'true from poll %d on' % k)
     if e2e.outcome(impl) == 'panic':
         msg = str((impl or {}).get('panic'))
         return _filter([{'class': e2e.panic_class(c, msg), 'what': 'solving a valid problem panicked (%s): %s' % (where, msg[:300])}])
@@ -320,6 +374,13 @@ def classify(c, impl):
     k = cfg.get('quota_after_polls')
     l = c.get('c07') or {}
     labs = ['result=' + e2e.outcome(impl), 'max_generations=%d' % cfg['max_generations']]
+    cv = cfg.get('min_cv')
+    labs.append('min_cv=%s' % ('none' if cv is None else '%s/%s/%s' % (
+        cv[0], 'size<=N' if cv[0] == 'sample' and cv[1] <= cfg['max_generations'] else 'size>N' if cv[0] == 'sample' else 'long',
+        'never' if cv[2] == -1.0 else 'may-fire')))
+    labs.append('max_time=%s' % ('none' if cfg.get('max_time') is None else 'large'))
+    tp = cfg.get('target_proximity')
+    labs.append('target_proximity=%s' % ('none' if tp is None else 'never' if tp[1] == 0.0 else 'fires'))
     if 'K' in l:
         K, P = l['K'], l['init_polls']
         if k is None:
@@ -363,13 +424,15 @@ def extra_coverage():
         ok = want <= seen
         exhaustive = exhaustive and ok
         pairs += len(seen)
-        groups.append({'problem': g, 'max_generations': info['max_generations'], 'polls_of_uninterrupted_run_K': info['K'],
+        groups.append({'problem': g, 'max_generations': info['max_generations'], 'other_criteria': info.get('extras') or {},
+                       'polls_of_uninterrupted_run_K': info['K'],
                        'k_values_run': len(seen), 'every_k_from_0_to_K_plus_1_and_never_was_run': ok})
     ks = [x['polls_of_uninterrupted_run_K'] for x in groups]
     return {'fault_enumeration': {
         'problems': len(groups), 'problem_k_pairs_enumerated': pairs, 'exhaustive_over_k_for_every_problem': exhaustive,
         'K_min': min(ks) if ks else None, 'K_max': max(ks) if ks else None,
-        'problems_regenerated_because_K_exceeded_the_tier_cap': _COV['skipped_over_cap'],
+        'problems_with_other_termination_criteria_combined': sum(1 for x in groups if x['other_criteria']),
+        'problems_not_enumerated_because_K_exceeded_the_tier_cap_(uninterrupted_run_still_judged)': _COV['skipped_over_cap'],
         'uninterrupted_runs_that_failed_to_learn': _COV['learning_failures'],
         'violations_inherited_from_C01_C02_C03_known_findings': _COV['inherited'],
         'per_problem': groups[:200]}}
